@@ -278,7 +278,8 @@ class SinexParser(Parser):
                 lines = [
                     ln for ln in itertools.takewhile(lambda ln: not ln.startswith(b"-"), fid) if ln.startswith(b" ")
                 ]
-                self._sinex[marker] = self.parse_lines(lines, sinex_blocks[marker].fields)
+                # A block with one data line is returned as a 0-d array by np.genfromtxt, always store 1-d arrays
+                self._sinex[marker] = np.atleast_1d(self.parse_lines(lines, sinex_blocks[marker].fields))
                 if params:
                     self._sinex.setdefault("__params__", dict())[marker] = params
                 del sinex_blocks[marker]
